@@ -335,7 +335,7 @@ def main(replay=None, calibrate=False):
         cfgs.append(gen_config(rng, forced))
     jobs = [(c, 1, None, True) for c in cfgs] + [(c, 2, None, True) for c in cfgs[:n2]]
     res = runner.run(jobs)
-    obs = []; samples = []; nontriv = 0; worst = {}
+    obs = []; samples = []; nontriv = 0; worst = {}; frac = {}
     per = {}
     for (cfg, level, _, _), (imp, mod, st) in zip(jobs, res):
         dist["L%d/%d layers" % (level, len(cfg["radii"]))] = dist.get("L%d/%d layers" % (level, len(cfg["radii"])), 0) + 1
@@ -351,6 +351,10 @@ def main(replay=None, calibrate=False):
                 obs.append((f, mname, v)); worst[(level, mname)] = max(worst.get((level, mname), 0.0), v)
         if len(samples) < 3: samples.append(dict(config=describe(cfg, level), metrics=mets[:2]))
         if cal and not calibrate:
+            for d, r in zip(cfg["dipoles"], mets):
+                for mname, v in r.items():
+                    fr = v / bound(cal, features(cfg, d, level), mname)
+                    if fr > frac.get(mname, (0.0,))[0]: frac[mname] = (round(fr, 4), key(features(cfg, d, level)))
             bad = exceed(cal, cfg, level, mets)
             if bad: report(ck, cal, runner, cfg, level, "forward solution vs analytic sphere")
 
@@ -433,7 +437,8 @@ def main(replay=None, calibrate=False):
     ck.cov.update(evaluations=runner.evals + oracle_checks, distinct_nontrivial=nontriv,
                   rule="one evaluation = one full pipeline run (HeadMat, invert, DipSourceMat, Head2EEG/MEG, gains) on a generated nested-sphere model compared with the extracted oracle; distinct non-trivial = (configuration, resolution, dipole) triples with at least one metric evaluated; random 1-4 layers, radius ratios U[0.6,0.98], adjacent conductivity ratios log-U[1/100,100] or 1/80, 80, 1/15, 15, 1, outer radius 1 or log-U[0.5,2], centre 0 or random, 6 dipoles/configuration (2 radial, 2 tangential, 2 generic; eccentricity bins <=0.4, <=0.6, <=0.8 of the inner radius), electrodes = 42 outer-mesh vertices + 12 generic surface points, 18 MEG sensors at 1.05-1.5 R (radial / tangential / generic orientation)",
                   samples=samples, op_distribution=dist, worst_observed={"L%d %s" % k: round(v, 5) for k, v in sorted(worst.items())},
-                  refinement=[dict(metric=n, frm=NVERT[a], to=NVERT[b], before=round(x, 5), after=round(y, 5)) for (n, a, b, x, y) in refine][:24],
+                  refinement=[dict(metric=n, frm=NVERT[a], to=NVERT[b], before=round(x, 5), after=round(y, 5)) for (n, a, b, x, y) in sorted(refine, key=lambda r: -r[2])][:24],
+                  largest_fraction_of_bound={k_: dict(fraction=v[0], bin=v[1]) for k_, v in frac.items()},
                   meg_sigma_scaling_max_rel=mscale, meg_sigma_independent_max_rel=msig,
                   traces_validated_against_impl=runner.evals,
                   explanation=EXPLANATION)
